@@ -58,6 +58,10 @@ package channel
 //@   # never reused (plain create): the persisted counter has advanced past every key handed out
 //@   ensures  err == nil && !retrieveIfNameExists ==> kv.SpecCounterVal[counter.wrap] == old(kv.SpecCounterVal[counter.wrap]) + int64(old(len(*channels))) && len(toCreate) <= old(len(*channels))
 //@   ensures  kv.SpecCounterVal[counter.wrap] >= old(kv.SpecCounterVal[counter.wrap])
+//@   # never reused (retrieve-or-create): one key fewer is reserved only for a slot that was going to be
+//@   # created and is now taken by a stored channel (stored channels have a key) - so the reservation
+//@   # never drops below the number of slots still to be created
+//@   assert_before "incCounterBy--" (*channels)[idx].LocalKey == 0
 //@   modifies channels, kv.SpecCounterVal
 //@   loop 0 modifies channels
 //@   loop 0 invariant len(*channels) == old(len(*channels)) && len(names) == len(*channels) && 0 <= incCounterBy && int(incCounterBy) <= len(*channels)
